@@ -26,6 +26,7 @@ import (
 
 	"github.com/iden3/go-iden3-crypto/constants"
 	"github.com/iden3/go-merkletree-sql/v2"
+	"github.com/iden3/go-merkletree-sql/v2/db/memory"
 	"github.com/iden3/go-schema-processor/v2/merklize"
 	"github.com/piprate/json-gold/ld"
 
@@ -53,6 +54,9 @@ type Input struct {
 	// MerklizeJSONLD WITHOUT WithHasher, (2) merklize.SetHasher(another hasher), (3) all
 	// observations through mz.Hasher() / mz.Options(); the default is restored afterwards
 	Pinned bool `json:"pinned,omitempty"`
+	// Prior: a document merklized FIRST into a caller-provided tree (WithMerkleTree); Doc is then
+	// merklized into the same tree (two revisions of one document, persistent tree)
+	Prior json.RawMessage `json:"prior,omitempty"`
 }
 
 // jv is a JSON value as RawValue returns it.
@@ -139,6 +143,8 @@ type drv struct {
 	hs     []merklize.Hasher
 	groups []*group
 	gen    *docgen.Gen
+	// prior: see Input.Prior (set by the caller of docCase for the next document only)
+	prior []byte
 	// ordering classes are reported once per document
 	docReported map[string]bool
 }
@@ -446,7 +452,22 @@ func (d *drv) docCaseP(stream string, doc []byte, hi int, ctxs map[string]json.R
 			h = mz.Hasher()
 		}
 	} else {
-		mz, mo = mzrun.Merklize(doc, merklize.WithHasher(h), merklize.WithDocumentLoader(d.loader))
+		opts := []merklize.MerklizeOption{merklize.WithHasher(h), merklize.WithDocumentLoader(d.loader)}
+		if d.prior != nil {
+			in.Prior = json.RawMessage(d.prior)
+			mt, err := merkletree.NewMerkleTree(context.Background(), memory.NewMemoryStorage(), 40)
+			if err != nil {
+				return false
+			}
+			opts = append(opts, merklize.WithMerkleTree(merklize.MerkleTreeSQLAdapter(mt)))
+			_, po := mzrun.Merklize(d.prior, opts...)
+			d.rep.Count(stream + ":prior:" + po.Class)
+			d.prior = nil
+			if po.Class != "ok" {
+				return false
+			}
+		}
+		mz, mo = mzrun.Merklize(doc, opts...)
 	}
 	d.rep.Count(stream + ":merklize:" + mo.Class)
 	if mo.Class == "panic" || mo.Class == "hang" {
@@ -901,6 +922,9 @@ func Run(cfg *common.Config) (*common.Report, error) {
 		for u, b := range rf.Input.Contexts {
 			_ = d.loader.Add(u, b)
 		}
+		if len(rf.Input.Prior) > 0 {
+			d.prior = rf.Input.Prior
+		}
 		d.docCaseP("replay", rf.Input.Doc, rf.Input.Hasher, rf.Input.Contexts, rf.Input.Pinned)
 		for _, f := range rep.Failures {
 			fmt.Printf("replay: [%s] %s\n", f.Class, f.What)
@@ -943,6 +967,29 @@ func Run(cfg *common.Config) (*common.Report, error) {
 				d.docCase("systematic1", systematicDoc(fmt.Sprintf("urn:sys:%d:%d", ci, k), ch[0][k:k+1], ch[1][k:k+1]), hi, nil)
 			}
 		}
+	}
+	// duplicate paths: two entries under one key must make merklization fail; if a merklizer is
+	// ever handed out, every proof Value must hash to the leaf the tree proves
+	for i := 0; i < cfg.Pick(12, 120); i++ {
+		hi := i % len(d.hs)
+		head := `{"@context":` + gridContext + `,`
+		var doc string
+		switch i % 3 {
+		case 0: // two root nodes sharing a property, different values
+			doc = head + fmt.Sprintf(`"@graph":[{"@id":"urn:dup:a%d","i":%d,"s":"x"},{"@id":"urn:dup:b%d","i":%d}]}`, i, 30+i, i, 31+i)
+		case 1: // three nodes, two equal values and one different
+			doc = head + fmt.Sprintf(`"@graph":[{"@id":"urn:dup:a%d","t":"1990-05-17"},{"@id":"urn:dup:b%d","t":"1990-05-17"},{"@id":"urn:dup:c%d","t":"1990-05-18T00:00:00Z"}]}`, i, i, i)
+		default: // two revisions of one document into the same caller-provided tree
+			d.prior = []byte(head + fmt.Sprintf(`"@id":"urn:rev:%d","i":%d,"b":false,"t":"1990-05-17","s":"Alice","ni":-5}`, i, 30+i))
+			doc = head + fmt.Sprintf(`"@id":"urn:rev:%d","i":%d,"b":true,"t":"1990-05-18T00:00:00Z","s":"Alice B.","ni":-6}`, i, 31+i)
+			if i%2 == 0 {
+				doc = string(d.prior) // the identical revision again
+			}
+		}
+		if d.docCase("dup-path", []byte(doc), hi, nil) {
+			rep.Count("dup-path:accepted")
+		}
+		d.prior = nil
 	}
 	nGrid := cfg.Pick(80, 1000)
 	for i := 0; i < nGrid; i++ {
